@@ -205,7 +205,7 @@ def real_walk(tid, interval, rng, horizon, max_conns, nsteps=40):
     return run, rec, lines
 
 
-def public_api_case(tid, interval, responsive, nintervals=5):
+def public_api_case(tid, interval, responsive, nintervals=5, mailbox_down=False):
     """The same question asked of the whole stack: two real wormholes, `w.dilate(ping_interval=interval)` on both, the real
     Connector / DilatedConnectionProtocol (harness Noise stand-in) over the simulated TCP fabric.  Once connected the Follower
     either goes silent (nothing is delivered any more) or keeps answering; the Leader's interval timer is let run for
@@ -238,6 +238,17 @@ def public_api_case(tid, interval, responsive, nintervals=5):
     def snap():
         tc = timer_calls()
         snaps.append({"now": int(reactor.seconds()), "conn": 1, "stopped": False, "timer": int(tc[0].getTime()) if tc else 0})
+    if connected and mailbox_down:
+        # the whole network goes away: the Leader's connection to the mailbox server is lost as well and is being re-established
+        # (its next attempt has started and goes nowhere) while the peer connection falls silent
+        try:
+            conn = fw.mb.live_conn(fw.cl["L"])
+            if conn is not None:
+                fw.mb.apply({"a": "Drop", "k": conn.id})
+            if any(a_["a"] == "Retry" and a_["c"] == "L" for a_ in fw.mb.enabled(faults=False)):
+                fw.mb.apply({"a": "Retry", "c": "L"})
+        except Exception as ex:
+            errors.append("mailbox_down: %r" % (ex,))
     if connected:
         snap()
         for _ in range(50):
@@ -265,7 +276,7 @@ def public_api_case(tid, interval, responsive, nintervals=5):
            "pings": [{k: p_[k] for k in ("conn", "sent", "answered", "lost")} for p_ in pings], "dropped": dropped,
            "timer": snaps[-1]["timer"] if snaps else 0, "maxTimers": timers_max, "snaps": snaps,
            "internal": errors + fw.finish() + ([] if connected else ["public-api case: the two wormholes did not connect"]),
-           "origin": "family:public-api:%s" % ("responsive" if responsive else "silent"), "config": "public"}
+           "origin": "family:public-api:%s%s" % ("responsive" if responsive else "silent", "+mailbox-down" if mailbox_down else ""), "config": "public"}
     return rec
 
 
@@ -375,6 +386,12 @@ def run(prop, tier):
                 rec = public_api_case(tid, interval, responsive)
                 records.append(rec)
                 meta[tid] = {"schedule": [["public-api", interval, responsive]], "I": interval}
+                if not responsive:
+                    tid += 1
+                    n += 1
+                    rec = public_api_case(tid, interval, responsive, mailbox_down=True)
+                    records.append(rec)
+                    meta[tid] = {"schedule": [["public-api", interval, responsive, "mailbox-down"]], "I": interval}
         cov["public_api_cases"] = n
         path = wd.file("obs.ndjson")
         with open(path, "w") as f:
